@@ -14,7 +14,7 @@ import subprocess
 import sys
 import time
 
-WT = '/tmp/seedcheck-wt'
+WT = os.environ.get('SEED_WT', '/tmp/seedcheck-wt')
 
 
 def sh(cmd, cwd=None, timeout=1800):
